@@ -92,9 +92,10 @@ check("C05",
       "fresh symbols, so any placeholder reaching a result breaks an identity.",
       "Trusted: z3; the scripted process/product/criteria (public duck-typed interfaces); scipy.stats.moment replaced by its definition. Bounds: "
       "initial_level <= 1 (quick) / 2 (thorough), N0 <= 2/3, level_max <= initial+1/+2, answers in [0,2]/[0,3] with 2-5 passes per configuration; one level "
-      "of 100/200 samples with answers up to +3 (1% rule); fixed-level variant creating up to 4 levels at once. Outside: control variates "
-      "and payoff dimension > 1 in the multilevel engine, worker pools, regression of convergence rates. Known finding: fixed-level variant with "
-      "maximum_level < initial_level raises IndexError.",
+      "of 100/200 samples with answers up to +3 (1% rule); fixed-level variant creating up to 4 levels at once. one control variate (raw view only, regression "
+      "covariances as fresh symbols), the worker-pool branch run in-process, one Engine pricing twice. Outside: the control-variate adjustment "
+      "itself in the multilevel engine (C07 proves it for the standard engine), payoff dimension > 1 (known finding), real worker processes (C08 "
+      "models them), regression of the convergence rates (lstsq).",
       TECH, "DESIGN.md section 3 C05")
 
 check("C06",
@@ -116,7 +117,9 @@ check("C07",
       "Trusted: z3; scripted process (public Process interface); np.cov/np.std replaced by their definitions; sqrt axioms. Bounds: N <= 3/4, payoff "
       "dimension <= 2; one control (arbitrary notional, strike, price) and two controls with plain-float prices (compositional: the covariance entries "
       "the library computes are proved equal to the sample covariances, the adjustment is then proved over an arbitrary covariance matrix); the same "
-      "Product priced twice. Outside: >= 3 controls, vector payoffs with controls, worker pools.",
+      "Product priced twice; one controls object re-used across pricings; log-simulated process with a control on another underlying type; two "
+      "assets with a single-asset control; two strikes with two vector-strike controls (layout of the stored control samples, one path). Outside: "
+      ">= 3 controls, the adjustment identity for vector strikes with controls, worker pools.",
       TECH, "DESIGN.md section 3 C07")
 
 check("C17",
@@ -124,8 +127,9 @@ check("C17",
       "spread/butterfly decompositions and signs, digitals sum to 1, knock-in + knock-out = vanilla, knock-in pays iff the barrier is crossed, default "
       "time = first jump below the threshold (else inf), n-th-to-default monotone, notional linear, identity vs log representation agree (exp(log x)=x), "
       "and history twins: a barrier payoff evaluated on path A then B equals a fresh one on B; update(LOG) then update(IDENTITY) equals a fresh underlying.",
-      "Trusted: z3; exp/log axioms. Bounds: path length <= 3/4, <= 2 assets. Outside: LookBack, Rainbow, rate payoffs, CDS (C19). Known finding: Asian.value "
-      "raises on a one-dimensional path.",
+      "Trusted: z3; exp/log axioms. Bounds: path length <= 3/4, <= 2 assets. Also: default-time underlyings valuing successive paths and in the identity "
+      "representation, one underlying shared by two products, Rainbow on 2 assets (value, path left untouched). Outside: LookBack, Rainbow beyond 2 "
+      "assets, rate payoffs, CDS (C19). Known findings: Asian.value raises on a one-dimensional path; Butterfly with its middle strike below the midpoint is negative.",
       TECH, "DESIGN.md section 3 C17")
 
 check("C16",
